@@ -36,6 +36,7 @@ type C11Failure struct {
 	DelayUs     int    `json:"delay_us,omitempty"`
 	CutAfter    int64  `json:"cut_after,omitempty"` // cut_*: bytes let through before the trunk fails
 	Half        bool   `json:"half,omitempty"`      // cut_write: only the write direction is shut down
+	CutWhere    string `json:"cut_where,omitempty"` // how CutAfter was chosen (informational: class histogram)
 }
 
 // C11Close describes the orderly Close that ends every case.
@@ -73,12 +74,12 @@ func genClosers(t *rapid.T) (int, int) {
 
 func genC11(t *rapid.T) C11Case {
 	kind := rapid.SampledFrom([]string{
-		"none", "none",
 		"close_mux", "close_mux", "close_mux", "close_mux", "close_mux", "close_mux",
-		"close_conn", "close_conn",
 		"cut_write", "cut_write", "cut_write", "cut_write",
-		"cut_read", "cut_read",
 		"overflow", "overflow", "overflow",
+		"cut_read", "cut_read",
+		"close_conn", "close_conn",
+		"none", "none",
 		"listener",
 	}).Draw(t, "kind")
 	if kind == "listener" {
@@ -162,8 +163,10 @@ func genC11(t *rapid.T) C11Case {
 		}
 		switch {
 		case mode == 0:
+			f.CutWhere = "first_header"
 			f.CutAfter = rapid.Int64Range(0, muxHdrLen).Draw(t, "k")
 		case mode <= 3: // a frame boundary (after frame i; i == len means the very end)
+			f.CutWhere = "frame_boundary"
 			i := rapid.IntRange(0, len(bounds)).Draw(t, "frame")
 			if i == len(bounds) {
 				f.CutAfter = total
@@ -171,9 +174,11 @@ func genC11(t *rapid.T) C11Case {
 				f.CutAfter = bounds[i]
 			}
 		case mode <= 6: // inside a header
+			f.CutWhere = "inside_header"
 			i := rapid.IntRange(0, len(bounds)-1).Draw(t, "frame")
 			f.CutAfter = bounds[i] + rapid.Int64Range(1, muxHdrLen-1).Draw(t, "hoff")
 		case mode <= 9: // inside a payload (or right after the header)
+			f.CutWhere = "inside_payload"
 			i := rapid.IntRange(0, len(bounds)-1).Draw(t, "frame")
 			off := int64(0)
 			if lens[i] > 0 {
@@ -184,8 +189,10 @@ func genC11(t *rapid.T) C11Case {
 			}
 			f.CutAfter = bounds[i] + muxHdrLen + off
 		case mode == 10:
+			f.CutWhere = "anywhere"
 			f.CutAfter = rapid.Int64Range(0, total).Draw(t, "k")
 		default:
+			f.CutWhere = "beyond_all_traffic"
 			f.CutAfter = total + rapid.Int64Range(1, 100).Draw(t, "beyond")
 		}
 	case "overflow":
